@@ -56,8 +56,8 @@ CONSTANTS
                \*            "stmt" : all statements, expressions cut down to a few
                \*                     representative forms (allows a larger MaxTok)
                \*            "forms": one statement with empty bodies, on the first or second line
-               \*            "scope": one statement, every body empty or one use of a name,
-               \*                     every expression a name (for Rename)
+               \*            "scope": one statement; every body empty, one use of a name, or a
+               \*                     nested binder with a use; every expression a name (for Rename)
 
 VARIABLES
     out,       \* tokens derived so far / symbols of the string
